@@ -464,6 +464,26 @@ func (c *FnCtx) typeAssert(fr *frame, st *State, t *ssa.TypeAssert) Val {
 	if types.IsInterface(at) {
 		// interface-to-interface: succeeds iff non-nil and dynamic type implements it (unknown)
 		okc := c.declare("implements", "Bool")
+		// ... except for the dynamic types this run has a tag for: go/types decides
+		if it, isI := at.Underlying().(*types.Interface); isI {
+			var names []string
+			for name := range c.eng.typeIDs {
+				names = append(names, name)
+			}
+			sortedStrings(names)
+			for _, name := range names {
+				dt := c.eng.resolveTypeName(name)
+				if dt == nil {
+					continue
+				}
+				is := eq(sx("typeof", x.S), num(int64(c.eng.typeIDs[name])))
+				if types.Implements(dt, it) {
+					c.assumeRaw(implies(is, okc))
+				} else {
+					c.assumeRaw(implies(is, not(okc)))
+				}
+			}
+		}
 		ok = and(not(eq(x.S, "0")), okc)
 		val = Val{K: kIface, T: at, S: x.S}
 	} else {
